@@ -1,6 +1,7 @@
 package main
 
 import (
+	"fmt"
 	"go/ast"
 	"go/token"
 	"go/types"
@@ -10,7 +11,7 @@ func init() {
 	register(&propDef{
 		id: "C19", title: "Scheduled messages are delivered as scheduled, and cancelled ones stop",
 		technique: "guard dominance in the job closure (delivery only by the winner of the cluster claim), key-composition dataflow, put-if-absent mapping rule, error-edge rule for unknown references",
-		explanation: "Decides the part of the property that is visible in the code shape: (1) cluster cron at-most-once per tick: in the job function the Tell is reached only when no claim is configured or the claim was won; a claim error or a lost claim never delivers; the claim key is composed of the schedule reference and the tick's run time; ClaimScheduleFire writes with put-if-absent plus the TTL and maps key-found to ErrScheduleFireClaimed, which claimClusterFire maps to 'not won'; a tick later than the TTL is skipped before any claim is attempted; (2) CancelSchedule / PauseSchedule / ResumeSchedule return ErrScheduledReferenceNotFound on the unknown-reference edge and act on the quartz job whose key was looked up under that reference; cancel forgets the reference on every exit; all three run under the scheduler's mutex. NOT decided: 'not before its delay', interval fidelity and 'at most one in-flight delivery after cancel' are timing behaviour of the third-party quartz scheduler. Added after seed C19a: the claim entry is written with the same ttl the stale-tick guard compares against.",
+		explanation: "Decides the part of the property that is visible in the code shape: (1) cluster cron at-most-once per tick: in the job function the Tell is reached only when no claim is configured or the claim was won; a claim error or a lost claim never delivers; the claim key is composed of the schedule reference and the tick's run time; ClaimScheduleFire writes with put-if-absent plus the TTL and maps key-found to ErrScheduleFireClaimed, which claimClusterFire maps to 'not won'; a tick later than the TTL is skipped before any claim is attempted; (2) CancelSchedule / PauseSchedule / ResumeSchedule return ErrScheduledReferenceNotFound on the unknown-reference edge and act on the quartz job whose key was looked up under that reference; cancel forgets the reference on every exit; all three run under the scheduler's mutex. NOT decided: 'not before its delay', interval fidelity and 'at most one in-flight delivery after cancel' are timing behaviour of the third-party quartz scheduler. Added after seed C19a: the claim entry is written with the same ttl the stale-tick guard compares against. Added after seed C19b: the reference maps (scheduledKeys, scheduledMeta) lose an entry only in CancelSchedule (or when the scheduler stops): a live schedule stays cancellable.",
 		assumptions: []string{"quartz scheduler timing and its DeleteJob/PauseJob semantics", "olric put-if-absent atomicity across nodes", "clock skew between nodes smaller than the claim TTL"},
 		minObl:     14,
 		run:        runC19,
@@ -200,6 +201,38 @@ func runC19(c *Ctx) {
 			return true
 		})
 		c.Check(nx && ex && mapErr, "cluster/put-if-absent+ttl", "ClaimScheduleFire writes with put-if-absent and an expiry and reports an existing key as ErrScheduleFireClaimed", c.P.Pos(cl.Decl.Pos()), "")
+	})
+
+	c.Rule("reference-bookkeeping", func() {
+		// "until cancelled": CancelSchedule / PauseSchedule / ResumeSchedule find a live schedule through the reference
+		// maps, so an entry is removed only by CancelSchedule (and wholesale when the scheduler stops). A rollback that
+		// deletes by reference after a rejected duplicate registration removes the LIVE schedule's entry: it keeps
+		// firing and can no longer be cancelled.
+		n := 0
+		for _, fld := range []string{"scheduledKeys", "scheduledMeta"} {
+			fv := c.Field("actor", "scheduler", fld)
+			for _, u := range c.UsesOf(fv) {
+				if u.Sel == nil || len(u.Path) < 2 {
+					continue
+				}
+				sel, ok := u.Path[len(u.Path)-2].(*ast.SelectorExpr)
+				if !ok {
+					continue
+				}
+				switch sel.Sel.Name {
+				case "Delete", "Remove", "Clear", "Reset":
+				default:
+					continue
+				}
+				n++
+				name := funcName(u.EnclObj)
+				ok = name == "actor.(*scheduler).CancelSchedule" || name == "actor.(*scheduler).Stop" || name == "actor.(*scheduler).reset"
+				c.Check(ok, "remove-"+fld+"@"+u.EnclName(), "a schedule's reference entry is removed only by CancelSchedule (or when the scheduler stops)", u.Where(c.P), "entry removed in "+name+": a live schedule registered under the same reference becomes uncancellable")
+			}
+		}
+		if n < 2 {
+			c.Undecided("count", "CancelSchedule removes the reference from both maps", "-", fmt.Sprintf("found %d removal sites", n))
+		}
 	})
 
 	c.Rule("cancel-pause-resume", func() {
